@@ -49,6 +49,8 @@ func c12Jobs(tier string) []string {
 		}
 		jobs = append(jobs, fmt.Sprintf("%s|e1p|queryK%d", w, k-1))
 	}
+	// the gateway's default queryer factory, list lengths up to 150 different entities
+	jobs = append(jobs, "W0|e0pd|queryK3", "Wmin|e0pd|queryK3")
 	return jobs
 }
 
@@ -56,7 +58,7 @@ func init() {
 	Props["C12"] = &Prop{
 		ID:    "C12",
 		Level: "exploration",
-		Rule: "case = (world, query with <=K fields; mutations with <=K-1 fields on a world with mutation roots on two services and a third service completing both payloads) run under 6 datasets (list length 1, default, 5, 20, duplicates in lists, duplicates+5): per service the number of batched HTTP calls must be <= the number of plan levels " +
+		Rule: "case = (world, query with <=K fields; mutations with <=K-1 fields on a world with mutation roots on two services and a third service completing both payloads) run under 6 datasets (list length 1, default, 5, 20, duplicates in lists, duplicates+5; through the gateway's default queryer factory: 1, default, 5, 20 and 150 different entities): per service the number of batched HTTP calls must be <= the number of plan levels " +
 			"(from the real planner's step tree; operations using the root node() entry point are excluded, see C01 finding) in which the service appears and identical for every list length, also when any one of the downstream calls fails (status 500 / transport error; list length default and 5); within one batched call no two id-only node lookups may carry the same (id, query); " +
 			"with duplicate entities the stitched answer must still equal the reference; non-trivial = plan with >=2 levels",
 		Assumptions: []string{"with the default batch size 3000 one Queryer.Query call is one HTTP call", "plan levels are taken from SequentialPlanner.Plan called directly"},
@@ -70,7 +72,12 @@ func init() {
 		RunJob: func(tier, job string, from int, em *Emitter) {
 			wd, cfg, opset := parseJob(job)
 			var feds []*Fed
-			for _, da := range c12Data {
+			data := c12Data
+			if cfg.DefaultFactory {
+				// the gateway's own queryers (no factory option): lists of 150 different entities on top
+				data = append(append([][]string{}, c12Data[:4]...), []string{"data-len150-distinct"})
+			}
+			for _, da := range data {
 				d := WorldDesc{Base: wd.Base, Atoms: append(append([]string{}, wd.Atoms...), da...)}
 				w, err := d.Build()
 				if err != nil {
@@ -163,7 +170,7 @@ func init() {
 							}
 						}
 					}
-					if di < 4 {
+					if di < 4 || (cfg.DefaultFactory && di == 4) {
 						var ks []string
 						for si := range f.W.Services {
 							ks = append(ks, fmt.Sprint(per[si]))
@@ -190,7 +197,9 @@ func init() {
 					if di == 1 && len(sg) > 0 {
 						baseDiff = true
 					}
-					if di >= 4 && len(sg) > 0 && !baseDiff {
+					if di >= 4 && len(sg) > 0 && !baseDiff && cfg.DefaultFactory {
+						set["answer wrong only when lists are long: "+sg[0]] = true
+					} else if di >= 4 && len(sg) > 0 && !baseDiff {
 						set["answer wrong only when lists contain the same entity several times: "+sg[0]] = true
 					}
 				}
